@@ -45,10 +45,13 @@ class PushedAuthorization(Authorization):
         """
         # create URN
 
+        # the request is what the authorization endpoint will be given: parse it with that endpoint's class
+        _authz = self.upstream_get("endpoint", "authorization")
+        _cls = _authz.request_cls if _authz else AuthorizationRequest
         if isinstance(request, str):
-            _request = AuthorizationRequest().from_urlencoded(request)
+            _request = _cls().from_urlencoded(request)
         else:
-            _request = AuthorizationRequest(**request)
+            _request = _cls(**request)
 
         _request.verify(keyjar=self.upstream_get("attribute", "keyjar"))
 
